@@ -63,6 +63,9 @@ UNITS = {
     'nm': (1e-9, (1, 0, 0, 0)),
     'eV/angstrom^3': (EV / 1e-30, (-1, 1, -2, 0)),
     'GPa': (1e9, (-1, 1, -2, 0)),
+    # a compound unit with a product AFTER a quotient (left to right: (eV/angstrom^3)*angstrom = energy per area), the
+    # form atomman.defect.SDVPN stores its beta coefficients with
+    'eV/angstrom^3*angstrom': (EV / 1e-20, (0, 1, -2, 0)),
     'e': (ECH, (0, 0, 0, 1)),
     'C': (1.0, (0, 0, 0, 1)),
     'angstrom/ps': (1e-10 / 1e-12, (1, 0, -1, 0)),
@@ -258,7 +261,7 @@ INTS = [3, -7, 0, 12, 1, 2, -1, 40, 5, 9, -3, 8, 7, 100, -25, 6, 4, 11]
 STRS = ['Al', 'x y', 'Cu', 'b-c', 'A1', 'fcc', 'Ni', 'q', 'Fe', 'hcp', 'W', 'zz', 'Mg', 'a.b', 'O', 'H', 'Ti', 'bcc']
 BOOLS = [True, False, True, True, False, False, True, False, True, False, False, True, True, True, False, False, True, False]
 VSHAPES = [(), (1,), (3,), (1, 1), (1, 3), (2, 2), (2, 3, 3)]
-VKINDS = [('f', None), ('f', 'nm'), ('f', 'eV/angstrom^3'), ('f', 'scaled'), ('i', None), ('i', 'nm'), ('U', None), ('b', None)]
+VKINDS = [('f', None), ('f', 'nm'), ('f', 'eV/angstrom^3'), ('f', 'eV/angstrom^3*angstrom'), ('f', 'scaled'), ('i', None), ('i', 'nm'), ('U', None), ('b', None)]
 # 'ndarray-F' / 'ndarray-T': the same array held in Fortran order / as a transposed view (rank >= 2 only): what is
 # written must follow the array's INDEX order, whatever its memory order
 CONTAINERS = ['ndarray', 'native', 'ndarray-F', 'ndarray-T']
